@@ -31,6 +31,7 @@ CLAUSES = {
     "TimeAxisStrictlyIncreasing": ("C06", "C14", "C15"),
     "AcceptedTimesIncrease": ("C06", "C04"),
     "SuccessIffAtTf": ("C06", "C17"),
+    "UnstableRunReportedAsSuccess": ("C17",),
     "StepNonNegative": ("C04", "C06"),
     "StepWithinFixedStep": ("C04",),
     "StepNotPastTf": ("C04",),
